@@ -22,7 +22,7 @@ var respell = gen.SpellCfg{WS: true, Escapes: true, Shuffle: true}
 
 // edit applies one small edit at a random position of a clone of v.
 func edit(t *rapid.T, v *ref.V) *ref.V {
-	c := gen.Default
+	c := gen.WithEmptyName
 	out := v.Clone()
 	// collect all nodes with parent info
 	type slot struct {
@@ -50,6 +50,9 @@ func edit(t *rapid.T, v *ref.V) *ref.V {
 			return s.parent.Arr[s.idx]
 		}
 		return s.parent.Vals[s.idx]
+	}
+	if len(slots) == 0 && v.K == ref.KNum && rapid.Bool().Draw(t, "rootnum") {
+		return ref.Num(gen.Neighbour(t, v.Num, "rnb"))
 	}
 	if len(slots) == 0 {
 		// scalar or empty container at the root: swap for a near value
@@ -96,6 +99,9 @@ func edit(t *rapid.T, v *ref.V) *ref.V {
 			set(s, ref.Str(cur.Str+" "))
 		case ref.KBool:
 			set(s, ref.Bool(!cur.B))
+		case ref.KNum:
+			// a different number that float64 (or a tolerance) cannot tell apart from this one
+			set(s, ref.Num(gen.Neighbour(t, cur.Num, "nb")))
 		default:
 			set(s, ref.Str("1"))
 		}
@@ -110,7 +116,7 @@ func drawValue(t *rapid.T) *ref.V {
 	if gen.OneIn(t, 8, "special") {
 		return rapid.SampledFrom([]*ref.V{ref.Null(), ref.Arr(ref.Null()), ref.Arr(ref.Null(), ref.Null()), ref.ObjOf("a", ref.Null()), ref.Arr(ref.Arr(ref.Null())), ref.Obj(), ref.Arr()}).Draw(t, "sp")
 	}
-	return gen.Default.Value(3).Draw(t, "a")
+	return gen.WithEmptyName.Value(3).Draw(t, "a")
 }
 
 func drawPair(t *rapid.T) Case {
@@ -147,7 +153,7 @@ func drawMalformed(t *rapid.T) Case {
 		rapid.SliceOfN(rapid.SampledFrom(alphabet), 0, 12),
 		rapid.SliceOfN(rapid.Byte(), 0, 12),
 		rapid.Custom(func(t *rapid.T) []byte {
-			b := []byte(gen.Default.Value(3).Draw(t, "v").Text(false))
+			b := []byte(gen.WithEmptyName.Value(3).Draw(t, "v").Text(false))
 			if len(b) == 0 {
 				return b
 			}
@@ -170,7 +176,7 @@ func drawMalformed(t *rapid.T) Case {
 	if rapid.Bool().Draw(t, "same") {
 		b = append([]byte{}, a...)
 	} else {
-		b = []byte(gen.Default.Value(2).Draw(t, "good").Text(false))
+		b = []byte(gen.WithEmptyName.Value(2).Draw(t, "good").Text(false))
 	}
 	if rapid.Bool().Draw(t, "swap") {
 		a, b = b, a
